@@ -18,6 +18,7 @@ import (
 )
 
 const findingF15a = "F-15a-abandoned-go-task-blocks-forever"
+const findingF15b = "F-15b-chain-goroutine-waits-for-unflushed-batch-promise"
 
 type worker struct {
 	model       *hx.Model
@@ -146,13 +147,16 @@ func (wk *worker) runCase(c *Case) (res CaseResult) {
 			nGated++
 		}
 	}
-	pendingAtReturn := 0
+	pendingAtReturn, chainedPending := 0, 0
 	for _, r := range w.regs {
 		if r.chained {
 			nChained++
 		}
 		if r.seen == 0 {
 			pendingAtReturn++
+			if r.chained {
+				chainedPending++
+			}
 		}
 	}
 	maxOut, maxBatch, multiDeliver := 0, 0, 0
@@ -236,16 +240,20 @@ func (wk *worker) runCase(c *Case) (res CaseResult) {
 		for _, g := range left {
 			wk.ignore[g.id] = true
 		}
-		allInSend := true
+		allInSend, inSend := true, 0
 		for _, g := range left {
-			if !leakedInGoSend(g) {
+			if leakedInGoSend(g) {
+				inSend++
+			} else if !waitingBehindAbandoned(g) {
 				allInSend = false
 			}
 		}
 		undelivered := abandoned + nChained + w.internal
 		key := ""
-		if allInSend && undelivered > 0 && len(left) <= nGo+w.internal {
+		if allInSend && inSend > 0 && undelivered > 0 && len(left) <= nGo+w.internal {
 			key = findingF15a
+		} else if allInSend && inSend == 0 && chainedPending > 0 && len(left) <= w.internal {
+			key = findingF15b
 		}
 		var fr []string
 		for i, g := range left {
@@ -273,7 +281,9 @@ func (wk *worker) runCase(c *Case) (res CaseResult) {
 	}
 	ad, ae, e1 := canonResponse(run.body)
 	sd, se, e2 := canonResponse(ref.body)
-	skipResp := wk.f02aPresent && w.f02a
+	// While F-02a is in the tree, an error that reaches an asynchronously resolved non-null field (its
+	// own, or one propagating up from its selection set) is dropped and leaves a blank key behind.
+	skipResp := wk.f02aPresent && (w.f02a || (w.asyncNonNull && strings.Contains(ad, `"":null`)))
 	if skipResp {
 		count("response-compare-skipped(F-02a in tree, async non-null failure)")
 	} else if e1 != nil || e2 != nil {
